@@ -851,4 +851,271 @@ theorem compose_name_keyword_ignored (hn : NamesOK names) (fx : Bool) (args : Li
 
 end
 
+section
+variable {names : List String} {D : Type}
+
+/-! ### attribute access: `__getattr__`, `__setattr__`, `Combine.__getitem__`; the `name` keyword of `Compose` -/
+
+/-- **an attribute that was set is the attribute that is read**: after `var.a = x`, `var.a` is `x`
+(for a public name; `__setattr__` stores every name in `var_context`) -/
+theorem getAttr_setAttr (v : Variable D) (a : String) (x : V) (ha : a.startsWith "_" = false) :
+    getAttr names (setAttr names v a x) a = .ok x := by
+  simp [getAttr, setAttr, ha, getSlot_setSlot]
+
+/-- setting one attribute does not change another one -/
+theorem getAttr_setAttr_ne (v : Variable D) (a b : String) (x : V) (hab : key names b ≠ key names a) :
+    getAttr names (setAttr names v a x) b = getAttr names v b := by
+  simp [getAttr, setAttr, getSlot_setSlot, hab]
+
+/-- names that start with an underscore are never looked up in `var_context` -/
+theorem getAttr_private (v : Variable D) (a : String) (ha : a.startsWith "_" = true) :
+    getAttr names v a = .error .attributeError := by
+  simp [getAttr, ha]
+
+/-- a missing attribute raises `LenaAttributeError` (documented in `Variable.__init__`) -/
+theorem getAttr_missing (v : Variable D) (a : String) (ha : a.startsWith "_" = false)
+    (hm : getSlot v.varCtx (key names a) = none) : getAttr names v a = .error .lenaAttributeError := by
+  simp [getAttr, ha, hm]
+
+/-- **"otherwise updated attributes won't affect the context"** (comment of `__setattr__`): an attribute set on a
+variable reaches `context.variable` of every value the variable is applied to afterwards (any attribute but
+`compose`, which `_update_context` rewrites) -/
+theorem setAttr_reaches_context {fx : Bool} (v : Variable D) (a : String) (x : V) (hac : key names a ≠ kCompose names)
+    {y : Value D} {d : D} {c : Slots} (h : call names fx (setAttr names v a x) y = .ok (d, c)) :
+    ∃ r, getSlot c (kVariable names) = some (.dict r) ∧ getSlot r (key names a) = some x := by
+  obtain ⟨r, hr, hall⟩ := call_carries_attributes h
+  exact ⟨r, hr, hall _ hac x (by simp [setAttr, getSlot_setSlot])⟩
+
+/-- all attributes of a plain variable can be read with dot notation: `var.name` is the name and `var.k` is
+`kw[k]` (hypotheses as in `mkVariable_attributes`) -/
+theorem getAttr_mkVariable (hn : NamesOK names) {name : V} {f : D → D} {ty : String} {kw : Slots} {v : Variable D}
+    (h : mkVariable names name (.fn f) (.str ty) kw = .ok v)
+    (hkn : getSlot kw (kName names) = none) (hkt : getSlot kw (kType names) = none)
+    (hty : key names ty ≠ kName names) :
+    getAttr names v "name" = .ok name ∧
+    ∀ (a : String) (x : V), a.startsWith "_" = false → getSlot kw (key names a) = some x →
+      key names a ≠ key names ty → getAttr names v a = .ok x := by
+  obtain ⟨h1, h2⟩ := mkVariable_attributes hn h hkn hkt hty
+  refine ⟨?_, ?_⟩
+  · have : getSlot v.varCtx (key names "name") = some name := h1
+    simp [getAttr, this]
+  · intro a x ha hx hne
+    simp [getAttr, ha, h2 _ _ hx hne]
+
+theorem pyIndex_nonneg (n : Nat) (i : Nat) (h : i < n) : pyIndex n (i : Int) = .ok i := by
+  simp [pyIndex, h]
+
+theorem pyIndex_neg (n : Nat) (i : Nat) (h0 : 0 < i) (h : i ≤ n) : pyIndex n (-(i : Int)) = .ok (n - i) := by
+  have h1 : ¬ (0 : Int) ≤ -(i : Int) := by omega
+  have h2 : (-(-(i : Int))).toNat = i := by simp
+  unfold pyIndex
+  rw [if_neg h1, h2, if_pos h]
+
+theorem pyIndex_out (n : Nat) (i : Int) (h : (n : Int) ≤ i ∨ i < -(n : Int)) : pyIndex n i = .error .indexError := by
+  unfold pyIndex
+  by_cases h0 : 0 ≤ i
+  · have : ¬ i.toNat < n := by omega
+    simp [h0, this]
+  · have : ¬ (-i).toNat ≤ n := by omega
+    simp [h0, this]
+
+/-- **`Combine(v₀,…)[i]` is the `i`-th combined variable** with Python's indexing: `0 ≤ i < n` gives `vᵢ`,
+`-n ≤ i < 0` gives `vₙ₊ᵢ`, everything else raises `IndexError` -/
+theorem combine_getitem (vars : List (Variable D)) :
+    (∀ i : Nat, (h : i < vars.length) → combineGetItem vars (i : Int) = .ok vars[i]) ∧
+    (∀ i : Nat, (h0 : 0 < i) → (h : i ≤ vars.length) →
+        combineGetItem vars (-(i : Int)) = .ok (vars[vars.length - i]'(by omega))) ∧
+    (∀ i : Int, ((vars.length : Int) ≤ i ∨ i < -(vars.length : Int)) → combineGetItem vars i = .error .indexError) := by
+  refine ⟨?_, ?_, ?_⟩
+  · intro i h
+    simp [combineGetItem, pyIndex_nonneg _ _ h, h]
+  · intro i h0 h
+    have hlt : vars.length - i < vars.length := by omega
+    simp [combineGetItem, pyIndex_neg _ _ h0 h, hlt]
+  · intro i h
+    simp [combineGetItem, pyIndex_out _ _ h]
+
+/-- **with `notes/C14_defect_2.patch` the keyword `name` of `Compose` sets the name of the composed variable**:
+whenever `Compose(*args, name=x, **kw)` can be constructed its `var_context["name"]` is `x`, and nothing else
+differs from what the constructor did before the patch (`mkCompose`, where the keyword has no effect:
+`compose_name_keyword_ignored`) -/
+theorem compose_name_keyword (fx : Bool) (args : List (Option (Variable D)))
+    (kw : Slots) (x : V) {c : Variable D}
+    (h : mkComposeN names fx args (setSlot kw (kName names) (some x)) = .ok c) :
+    getSlot c.varCtx (kName names) = some x ∧
+    ∃ c1, mkCompose names fx args (setSlot kw (kName names) (some x)) = .ok c1 ∧
+      c.getter = c1.getter ∧ c.varCtx = setSlot c1.varCtx (kName names) (some x) := by
+  unfold mkComposeN at h
+  cases hc : mkCompose names fx args (setSlot kw (kName names) (some x)) with
+  | error e => simp [hc] at h
+  | ok c1 =>
+    simp only [hc, getSlot_setSlot, if_true] at h
+    cases h
+    exact ⟨by simp [getSlot_setSlot], c1, rfl, rfl, rfl⟩
+
+/-- without the keyword the patched constructor is the old one -/
+theorem mkComposeN_no_name (fx : Bool) (args : List (Option (Variable D))) (kw : Slots)
+    (hk : getSlot kw (kName names) = none) : mkComposeN names fx args kw = mkCompose names fx args kw := by
+  unfold mkComposeN
+  cases mkCompose names fx args kw <;> simp [hk]
+
+end
+
+section
+variable {names : List String} {D : Type}
+
+/-! ### expression trees of any nesting depth -/
+
+/-- the alphabet holds every reserved word -/
+structure NamesOK2 (names : List String) : Prop where
+  base : NamesOK names
+  hDim : "dim" ∈ names
+  hCombine : "combine" ∈ names
+  hGetter : "getter" ∈ names
+
+theorem namesOK2b_sound (h : namesOK2b names = true) : NamesOK2 names := by
+  simp only [namesOK2b, Bool.and_eq_true, List.contains_iff_mem] at h
+  exact ⟨namesOKb_sound h.1.1.1, h.1.1.2, h.1.2, h.2⟩
+
+/-- no type of the run is a reserved word -/
+structure TypesOK (names : List String) (T : List V) : Prop where
+  name : inT names T (kName names) = false
+  type : inT names T (kType names) = false
+  compose : inT names T (kCompose names) = false
+  dim : inT names T (kDim names) = false
+  combine : inT names T (kCombine names) = false
+
+theorem typesOKb_sound {T : List V} (h : typesOKb names T = true) : TypesOK names T := by
+  simp only [typesOKb, Bool.and_eq_true, Bool.not_eq_true'] at h
+  exact ⟨h.1.1.1.1, h.1.1.1.2, h.1.1.2, h.1.2, h.2⟩
+
+/-- what the theorems need of a constructed variable's context: well-formed, no key named like a type of the
+run (except the types it lists), and a string `name` -/
+structure WFCtx (names : List String) (T : List V) (a : Slots) : Prop where
+  wf : VarWF names a
+  noClash : NoClash names T a
+  name : ∃ s, getSlot a (kName names) = some (.str s)
+
+/-- keyword arguments as `Variable.__init__` receives them: over the alphabet, without `name`, `type`,
+`compose`, and no key named like a type of the run -/
+structure KwOK (names : List String) (T : List V) (kw : Slots) : Prop where
+  len : kw.length = names.length
+  name : getSlot kw (kName names) = none
+  type : getSlot kw (kType names) = none
+  compose : getSlot kw (kCompose names) = none
+  noClash : ∀ j, inT names T j = true → getSlot kw j = none
+
+theorem kwOKb_sound {T : List V} {kw : Slots} (h : kwOKb names T kw = true) (hT : TypesOK names T) :
+    kw.length = names.length ∧ getSlot kw (kType names) = none ∧ getSlot kw (kCompose names) = none ∧
+    getSlot kw (kGetter names) = none ∧ getSlot kw (kDim names) = none ∧
+    ∀ j, inT names T j = true → getSlot kw j = none := by
+  simp only [kwOKb, Bool.and_eq_true, beq_iff_eq, Option.isNone_iff_eq_none, List.all_eq_true] at h
+  obtain ⟨⟨⟨⟨⟨h1, h2⟩, h3⟩, h4⟩, h5⟩, h6⟩ := h
+  refine ⟨h1, h2, h3, h4, h5, ?_⟩
+  intro j hj
+  by_cases hlt : j < names.length
+  · have := h6 j (List.mem_range.2 hlt)
+    simp only [hj, Bool.not_true, Bool.false_or, Bool.or_eq_true, Option.isNone_iff_eq_none, beq_iff_eq] at this
+    rcases this with h | h
+    · exact h
+    · rw [h, hT.name] at hj; cases hj
+  · exact getSlot_of_le kw j (by omega)
+
+/-- `typeOKb` -/
+theorem typeOKb_cases {ty : V} (h : typeOKb names ty = true) :
+    ty = .str "" ∨ ∃ s, ty = .str s ∧ s ≠ "" ∧ s ∈ names ∧ s ≠ "name" ∧ s ≠ "type" ∧ s ≠ "compose" ∧
+      s ≠ "dim" ∧ s ≠ "combine" := by
+  cases ty with
+  | str s =>
+    by_cases hs : s = ""
+    · left; rw [hs]
+    · right
+      simp [typeOKb, hs] at h
+      exact ⟨s, rfl, hs, h.1, h.2.1, h.2.2.1, h.2.2.2.1, h.2.2.2.2.1, h.2.2.2.2.2⟩
+  | int i => simp [typeOKb] at h
+  | seq b l => simp [typeOKb] at h
+  | dict l => simp [typeOKb] at h
+
+/-- **a plain variable with well-formed arguments** is constructed and satisfies the hypotheses of the chain
+theorems; its history is its type -/
+theorem mkVariable_wf (hn : NamesOK names) {T : List V} (hT : TypesOK names T) (s0 : String) (f : D → D) (ty : V)
+    (kw : Slots) (hty : typeOKb names ty = true) (hkw : KwOK names T kw)
+    (hcov : ∀ j, inT names (typeOf ty) j = true → inT names T j = true) :
+    ∃ v, mkVariable names (.str s0) (.fn f) ty kw = .ok v ∧ v.getter = f ∧ WFCtx names T v.varCtx ∧
+      hist names v.varCtx = typeOf ty := by
+  rcases typeOKb_cases hty with rfl | ⟨s, rfl, hs, hsn, hr⟩
+  · -- untyped
+    refine ⟨⟨f, dictUpdate (setSlot (emptyD names.length) (kName names) (some (.str s0))) kw⟩, by simp [mkVariable, truthy],
+      rfl, ?_, ?_⟩
+    · have hg : ∀ j, getSlot (dictUpdate (setSlot (emptyD names.length) (kName names) (some (.str s0))) kw) j =
+          match getSlot kw j with
+          | some x => some x
+          | none => if j = kName names then some (.str s0) else none := by
+        intro j
+        rw [getSlot_dictUpdate, getSlot_setSlot]
+        cases getSlot kw j <;> simp
+      have hlen : (dictUpdate (setSlot (emptyD names.length) (kName names) (some (.str s0))) kw).length = names.length := by
+        have h1 : (setSlot (emptyD names.length) (kName names) (some (V.str s0))).length = names.length := by
+          rw [length_setSlot _ _ _ (by simpa using hn.kName_lt)]; simp
+        rw [length_dictUpdate _ _ (h1.trans hkw.len.symm), h1]
+      refine ⟨⟨hlen, ?_, ?_⟩, ?_, ⟨s0, by rw [hg, hkw.name]; simp⟩⟩
+      · intro v hv
+        rw [hg, hkw.compose] at hv
+        simp [Ne.symm hn.name_ne_compose] at hv
+      · intro v hv
+        rw [hg, hkw.type] at hv
+        simp [Ne.symm hn.name_ne_type] at hv
+      · intro j hj hs
+        rw [hg, hkw.noClash j hj] at hs
+        by_cases hjn : j = kName names
+        · rw [hjn, hT.name] at hj; cases hj
+        · simp [hjn] at hs
+    · simp only [hist, typeOf]
+      rw [getSlot_dictUpdate, getSlot_dictUpdate, hkw.compose, hkw.type, getSlot_setSlot, getSlot_setSlot]
+      simp [Ne.symm hn.name_ne_compose, Ne.symm hn.name_ne_type]
+  · -- typed: a singleton instance of `LeavesOK`
+    let l : Leaf D := ⟨.str s0, f, s, kw⟩
+    have hks : getSlot kw (key names s) = none :=
+      hkw.noClash _ (hcov _ (by simp [typeOf, hs, inT]))
+    have hl : LeavesOK names [l] := by
+      refine ⟨?_, ?_, ?_, ?_, ?_, ?_, ?_⟩
+      · intro l' hl'; simp at hl'; subst hl'; exact hs
+      · intro l' hl'; simp at hl'; subst hl'; exact hsn
+      · intro l' hl'; simp at hl'; subst hl'; exact ⟨hr.1, hr.2.1, hr.2.2.1⟩
+      · intro l' hl'; simp at hl'; subst hl'; exact hkw.len
+      · intro l' hl'; simp at hl'; subst hl'; exact ⟨hkw.name, hkw.type, hkw.compose⟩
+      · simp
+      · intro l1 h1 l2 h2; simp at h1 h2; subst h1; subst h2; exact hks
+    have hmem : l ∈ [l] := by simp
+    have hvc : (l.var names).varCtx = l.ctx names := rfl
+    have e1 : l.ty = s := rfl
+    have e2 : l.kw = kw := rfl
+    have e3 : l.name = .str s0 := rfl
+    refine ⟨l.var names, mkVariable_leaf l hs, rfl, ?_, ?_⟩
+    · refine ⟨Leaf.varWF hn hl hmem, ?_, ⟨s0, ?_⟩⟩
+      · intro j hj hsome
+        rw [hvc] at hsome ⊢
+        rw [Leaf.hist_ctx hn hl hmem]
+        rw [Leaf.getSlot_ctx, e1, e2, e3] at hsome
+        rw [e1]
+        by_cases h1 : j = kType names
+        · rw [h1, hT.type] at hj; cases hj
+        · by_cases h2 : j = key names s
+          · simp [inT, h2]
+          · simp only [h1, h2, if_false] at hsome
+            rw [hkw.noClash j hj] at hsome
+            by_cases h3 : j = kName names
+            · rw [h3, hT.name] at hj; cases hj
+            · simp [h3] at hsome
+      · have kf := Leaf.key_facts hl hmem
+        rw [e1] at kf
+        rw [hvc, Leaf.getSlot_ctx, e1, e2, e3]
+        simp only [hn.name_ne_type, if_false, Ne.symm kf.1]
+        rw [hkw.name]
+        simp
+    · rw [hvc, Leaf.hist_ctx hn hl hmem, e1]
+      simp [typeOf, hs]
+
+end
+
 end Lena.C14
